@@ -45,8 +45,11 @@ const (
 	c16DefaultRemote = "192.0.2.10:4711"
 	c16KnownOrigins  = "WhitelistedOrigins lost on a snapshot-fed replica"
 
+	// (UnknownSetting: a key this version does not know -- a typo, or a setting of a newer version -- is
+	// ignored by the TOML decoder; an update carrying it is accepted like any other and must take effect)
 	c16TomlA = `SessionExpiration = "30m"
 PostMessageCooloff = "0s"
+UnknownSetting = 1
 MaxSessions = 5
 MaxChannels = 2
 [IRC]
